@@ -295,6 +295,17 @@ func (c *Ctx) term(v ssa.Value, d int) string {
 		if x.High != nil {
 			hi = c.term(x.High, d+1)
 		}
+		if (lo == "" || lo == "0") && x.High == nil && x.Max == nil {
+			// s[:] and s[0:] of a slice or a string are s (of an array: the conversion to a slice, kept)
+			switch u := x.X.Type().Underlying().(type) {
+			case *types.Slice:
+				return c.term(x.X, d+1)
+			case *types.Basic:
+				if u.Info()&types.IsString != 0 {
+					return c.term(x.X, d+1)
+				}
+			}
+		}
 		s := c.term(x.X, d+1) + "[" + lo + ":" + hi
 		if x.Max != nil {
 			s += ":" + c.term(x.Max, d+1)
@@ -773,7 +784,10 @@ type termEnv struct {
 
 // inlinable: a new function whose body is one straight-line block without effects, returning one value.
 func (c *Ctx) inlinable(f *ssa.Function) ssa.Value {
-	if !c.isNew(f) || len(f.Blocks) != 1 || len(f.FreeVars) > 0 {
+	if f == nil || len(f.Blocks) != 1 || len(f.FreeVars) > 0 {
+		return nil
+	}
+	if !c.isNew(f) && !c.arithOld(f) {
 		return nil
 	}
 	var ret *ssa.Return
@@ -790,7 +804,7 @@ func (c *Ctx) inlinable(f *ssa.Function) ssa.Value {
 		case *ssa.Call:
 			if _, isB := x.Call.Value.(*ssa.Builtin); !isB {
 				g := x.Call.StaticCallee()
-				if g == nil || c.inlinable(g) == nil {
+				if g == nil || (c.inlinable(g) == nil && !c.pureNumeric(g)) {
 					return nil
 				}
 			}
@@ -802,6 +816,93 @@ func (c *Ctx) inlinable(f *ssa.Function) ssa.Value {
 		return nil
 	}
 	return ret.Results[0]
+}
+
+// arithOld: a reviewed function of the library that only names an expression over its parameters — one straight-line
+// block of arithmetic, comparisons, conversions, slicing and builtins, no call of anything else, no store: fragmentStart(i,
+// n) = i*n. Calling it and writing the expression out are the same thing, so it is rendered as the expression.
+func (c *Ctx) arithOld(f *ssa.Function) bool {
+	if c.arith == nil {
+		c.arith = map[*ssa.Function]bool{}
+	}
+	if v, ok := c.arith[f]; ok {
+		return v
+	}
+	c.arith[f] = false
+	if !c.IsLib(f) || len(f.Blocks) != 1 || len(f.FreeVars) > 0 || f.Signature.Results().Len() != 1 || f.Recover != nil || f.Signature.Recv() != nil {
+		return false
+	}
+	if isBoolType(f.Signature.Results().At(0).Type()) {
+		return false // predicates keep their names: the rules and the facts speak of them
+	}
+	if len(f.Params) == 0 || f.Name() == "fragmentData" {
+		return false // constructors of empty values, and the splitter the fragment rules are anchored on, keep their names
+	}
+	switch t := f.Signature.Results().At(0).Type().Underlying().(type) {
+	case *types.Basic:
+	case *types.Slice:
+		if b, ok := t.Elem().Underlying().(*types.Basic); !ok || b.Kind() != types.Byte {
+			return false
+		}
+	default:
+		return false
+	}
+	for _, in := range f.Blocks[0].Instrs {
+		switch x := in.(type) {
+		case *ssa.BinOp, *ssa.Slice, *ssa.Convert, *ssa.ChangeType, *ssa.Return, *ssa.DebugRef:
+		case *ssa.UnOp:
+			if x.Op == token.MUL || x.Op == token.ARROW {
+				if _, isG := x.X.(*ssa.Global); !isG {
+					return false
+				}
+			}
+		case *ssa.Call:
+			if _, isB := x.Call.Value.(*ssa.Builtin); !isB {
+				g := x.Call.StaticCallee()
+				if g == nil || g == f || (!c.arithOld(g) && !c.pureNumeric(g)) {
+					return false
+				}
+			}
+		default:
+			return false
+		}
+	}
+	c.arith[f] = true
+	return true
+}
+
+// pureNumeric: a function of the library over numbers only (min, max): parameters and result of basic type, nothing but
+// arithmetic, comparisons and branches inside.
+func (c *Ctx) pureNumeric(f *ssa.Function) bool {
+	if !c.IsLib(f) || len(f.FreeVars) > 0 || f.Signature.Results().Len() != 1 || f.Recover != nil || f.Signature.Recv() != nil {
+		return false
+	}
+	basic := func(t types.Type) bool {
+		b, ok := t.Underlying().(*types.Basic)
+		return ok && b.Info()&types.IsNumeric != 0
+	}
+	if !basic(f.Signature.Results().At(0).Type()) {
+		return false
+	}
+	for _, p := range f.Params {
+		if !basic(p.Type()) {
+			return false
+		}
+	}
+	for _, b := range f.Blocks {
+		for _, in := range b.Instrs {
+			switch x := in.(type) {
+			case *ssa.BinOp, *ssa.Convert, *ssa.Return, *ssa.DebugRef, *ssa.If, *ssa.Jump, *ssa.Phi:
+			case *ssa.UnOp:
+				if x.Op == token.MUL || x.Op == token.ARROW {
+					return false
+				}
+			default:
+				return false
+			}
+		}
+	}
+	return true
 }
 
 // lookThrough: what a parameter of a new function stands for: the argument bound by the call being inlined in the
